@@ -20,7 +20,8 @@ the fragment of the language for which the compiler-correctness theorem exists
   change it, so nothing in it comes from an identifier of `e` that found no binding.  (A Binding failure
   that is *in* a bound value is of course passed on; `binding_failure_needs_unbound_name` gives the
   contrapositive reading: a result that does change under some extension has a reported name that is
-  neither a type name nor bound.)
+  neither a type name nor bound; `no_identifier_creates_binding_failure`: every identifier of `e` then
+  resolves to a type value or to the value it is bound to, for all trees.)
 
 NOT covered (`…_partial`): the trees outside the fragment — type patterns of `match`, map literals,
 f-strings, member access / index / calls / macros (so: call arguments and receivers, macro ranges and bodies,
@@ -199,6 +200,30 @@ theorem binding_failure_needs_unbound_name {e : Ast} (h : InFragmentM e) {env en
     | some v => exact Or.inr rfl
     | none => exact absurd ⟨n, hn, ht, hp⟩ hno
 
+/-- No identifier of `e` *creates* a Binding failure when the reported names are covered: each of them
+    resolves to its type value or to the value it is bound to (so the only Binding failures the evaluation
+    can meet are those a caller put into a bound value). -/
+theorem no_identifier_creates_binding_failure {e : Ast} {env : Env} (hb : AllBound env (params e)) {n : Str}
+    (hn : C17.Mentions e n) :
+    (∃ t, env.getType n = some (.type t) ∧ resolveIdent env n = .type t) ∨
+    (∃ v, env.getParam n = some v ∧ resolveIdent env n = v) := by
+  have hmem := (C17.params_exact e n).mpr hn
+  unfold resolveIdent
+  cases ht : env.getType n with
+  | some t =>
+    left
+    unfold Env.getType typeByName at ht
+    split at ht
+    · rw [Option.map_eq_some_iff] at ht
+      obtain ⟨p, _, rfl⟩ := ht
+      exact ⟨_, rfl, rfl⟩
+    · cases ht
+  | none =>
+    right
+    cases hp : env.getParam n with
+    | some v => exact ⟨v, rfl, rfl⟩
+    | none => have := hb n hmem; simp [ht, hp] at this
+
 /-! ## non-vacuity
 
 `x + 1 * 2 > y || false` — `1 * 2` and `false` are folded by the compiler, `x + …`, `… > y` and the `||`
@@ -266,6 +291,9 @@ example : evalSpec ex (envA.bind "w".toList (.int 9)) = evalSpec ex envA :=
   params_no_binding_error_partial (frag_mono ex_frag) allBoundA extendsA
 example : execProg B (envA.bind "w".toList (.int 9)) (compileProgram B ex) = execProg B envA (compileProgram B ex) :=
   exec_params_no_binding_error B npA (noProgs_bind npA _ _) ex_frag allBoundA extendsA
+example : ∃ v, envA.getParam "y".toList = some v ∧ resolveIdent envA "y".toList = v :=
+  (no_identifier_creates_binding_failure (e := ex) allBoundA
+    (.binL (.binR (.memberP .ident)))).resolve_left (fun ⟨_, h, _⟩ => by cases h)
 -- binding_failure_needs_unbound_name: envX leaves `y` unbound, the value is a Binding failure, and the
 -- extension that binds `y` changes it
 example : evalSpec ex envX = .err .binding := by rfl
